@@ -38,7 +38,7 @@ COMPONENTS = {"real": ["bob dev/clean CLI", "builder checkout logic (switch/atti
               "stub": ["event loop (SimLoop): git commands run synchronously at seeded virtual instants, retries sleep in virtual time"],
               "not_exercised": ["svn/cvs/url SCMs", "git submodules", "network transports", "forced (-f) clean"]}
 ASSUMPTIONS = ["git itself does not lose reachable commits", "the user performs no destructive git commands himself"]
-SHRINK = ["ops"]
+SHRINK = ["ops", "hist"]
 
 def plan(tier):
     if tier == "thorough":
@@ -48,6 +48,8 @@ def plan(tier):
 FILES = ["a.txt", "b.txt", "dir/c.txt"]
 
 def gen_case(rng, tier, index):
+    if index % 6 == 5:
+        return _gen_url_case(rng)
     nrepo = rng.choice([1, 2])
     spec = {"scms": [{"type": "git", "repo": 0, "branch": "master", "dir": rng.choice([".", ".", "sub"])}]}
     ops = [["bob", "dev", rng.getrandbits(32)]]
@@ -144,7 +146,11 @@ def directed_cases(tier):
                 seen.add(k)
                 uniq.append(c)
         out = uniq
-    return out + convs
+    urls = [{"url": True, "release": rel, "digest": False, "same_name": True, "hist": h,
+             "locs": [{"content": "release 1\n", "mtime": 1_500_001_000}, {"content": "release 2\n", "mtime": 1_500_002_000}],
+             "directed": "url SCM repointed to an older file of the same name"}
+            for rel in (False, True) for h in ([1, 0], [0, 1, 0])]
+    return out + convs + (urls if tier == "thorough" else urls[:3])
 
 # ---------------------------------------------------------------------------
 
@@ -302,7 +308,86 @@ def _scm_paths(proj, spec, srcws="dev/src/lib/1/workspace"):
                 out.append(d)
     return out
 
+def _gen_url_case(rng):
+    nloc = rng.choice([2, 3])
+    times = rng.sample(range(1, 10), nloc)
+    return {"url": True, "release": rng.random() < 0.4, "digest": rng.random() < 0.3,
+            "locs": [{"content": "release %d %x\n" % (i, rng.getrandbits(16)), "mtime": 1_500_000_000 + 1000 * times[i]} for i in range(nloc)],
+            "hist": [rng.randrange(nloc) for _ in range(rng.choice([2, 3, 4]))], "same_name": rng.random() < 0.8}
+
+def _run_url(case):
+    """url SCM: the recipe is pointed at other locations (same or other file name, older or newer
+    file, with or without digest); the untouched source workspace must equal a fresh checkout."""
+    import hashlib, yaml
+    top = common.scratch_dir("c12u-%d" % os.getpid())
+    stats = common.Counter()
+    log = []
+    viol = None
+    try:
+        up = os.path.join(top, "up")
+        for i, l in enumerate(case["locs"]):
+            fn = os.path.join(up, "v%d" % i, "data.txt" if case.get("same_name", True) else "data%d.txt" % i)
+            common.write_file(fn, l["content"])
+            os.utime(fn, (l["mtime"], l["mtime"]))
+            l["path"] = fn
+        release = case.get("release", False)
+        srcws = "work/lib/src/1/workspace" if release else "dev/src/lib/1/workspace"
+        cmd = ["build", "--no-sandbox", "root"] if release else ["dev", "root"]
+        def files(i):
+            scm = {"scm": "url", "url": case["locs"][i]["path"], "dir": "dl"}
+            if case.get("digest"):
+                scm["digestSHA1"] = hashlib.sha1(case["locs"][i]["content"].encode()).hexdigest()
+            return {"config.yaml": yaml.safe_dump({"bobMinimumVersion": "1.3.dev999"}),
+                    "recipes/lib.yaml": yaml.safe_dump({"checkoutSCM": scm, "buildScript": "true\n", "packageScript": "true\n"}),
+                    "recipes/root.yaml": yaml.safe_dump({"root": True, "depends": ["lib"], "buildScript": "true\n", "packageScript": "true\n"})}
+        proj = os.path.join(top, "w", "proj")
+        last = None
+        for n, i in enumerate(case["hist"]):
+            if i >= len(case["locs"]):
+                continue
+            for p_, c_ in files(i).items():
+                common.write_file(os.path.join(proj, p_), c_)
+            r = buildsim.bob(proj, cmd, {"sched_seed": n + 1})
+            log.append((n, i, r.rc))
+            stats.inc("url_builds")
+            if last is not None and last != i:
+                stats.inc("url_location_changed")
+                if case["locs"][i]["mtime"] <= case["locs"][last]["mtime"]:
+                    stats.inc("probe_url_moved_to_older_file")
+            last = i
+            if r.rc != 0:
+                viol = {"kind": "build-failed", "detail": "url scenario, step %d (location %d): %s" % (n, i, r.output[-600:])}
+                break
+            fresh = os.path.join(top, "fresh%d" % n, "proj")
+            for p_, c_ in files(i).items():
+                common.write_file(os.path.join(fresh, p_), c_)
+            rf = buildsim.bob(fresh, cmd, {"sched_seed": 99})
+            if rf.rc != 0:
+                raise common.HarnessError("fresh url checkout failed: " + rf.output[-300:])
+            # (release mode numbers the directories per variant: ask Bob where the step lives)
+            def src_of(pr):
+                for path, ent in bobq.query(pr, develop=not release).items():
+                    if ent["recipe"] == "lib" and ent["steps"]["src"].get("ws"):
+                        return os.path.join(pr, ent["steps"]["src"]["ws"])
+                raise common.HarnessError("no source workspace of lib in " + pr)
+            a = treecmp.canon(src_of(proj))
+            b = treecmp.canon(src_of(fresh))
+            common.rmtree(os.path.join(top, "fresh%d" % n))
+            if a != b:
+                viol = {"kind": "workspace-differs-from-fresh-checkout",
+                        "detail": "url SCM, history %s, after step %d: untouched source workspace differs from a fresh checkout of the "
+                                  "final recipe: %s" % (case["hist"], n, "; ".join(treecmp.diff(a, b, 4)))}
+                break
+            stats.inc("convergence_checks")
+    finally:
+        common.rmtree(top)
+    return {"violation": viol, "digest": common.digest_of(log), "stats": dict(stats),
+            "nontrivial": stats.get("url_location_changed", 0) > 0, "sim_time": float(len(log)),
+            "sample": {"url": True, "hist": case["hist"], "digest": case.get("digest"), "log": log}}
+
 def run_case(case):
+    if case.get("url"):
+        return _run_url(case)
     top = common.scratch_dir("c12-%d" % os.getpid())
     stats = common.Counter()
     log = []
